@@ -158,6 +158,16 @@ def gen_wb(rng, big=False):
     elif "settings" not in form and rng.random() < 0.1:
         form["settings"] = []
         form["settings_cols"] = ["form_title", "form_id"]  # header-only sheet (F28 shape)
+    # external choices (itemsets.csv is part of the result): a select_one_external with its sheet
+    if rng.random() < 0.15:
+        rows.append({"type": "text", "name": "ec_state", "label": "State"})
+        rows.append({"type": "select_one_external ecl", "name": "ec_q", "label": "City",
+                     "choice_filter": "state=${ec_state}"})
+        form["external_choices"] = [
+            {"list_name": "ecl", "name": f"c{i}", "label": rng.choice(["City 'A'", 'the "B"', "it's C", "D d", "E"]),
+             "state": rng.choice(["s1", "s2"])}
+            for i in range(rng.randint(1, 4))
+        ]
     return spell_tx.init_orig(spell.wb_from_form(form))
 
 
@@ -253,6 +263,8 @@ def strip(wb, keep_orig=False):
     out = {"sheets": []}
     for s in wb["sheets"]:
         d = {"name": s["name"], "cols": list(s["cols"]), "rows": [list(r) for r in s["rows"]]}
+        if "raw" in s:
+            d["raw"] = copy.deepcopy(s["raw"])
         if keep_orig:
             d["orig"] = list(s.get("orig", []))
         out["sheets"].append(d)
@@ -316,7 +328,7 @@ def exhaustive(ctx):
     n = 0
     # headers, per sheet
     for sname, classes in spell.HEADER_CLASSES.items():
-        if sname == "entities":
+        if sname in ("entities", "external_choices"):
             continue
         for cls in classes:
             canon = cls[0]
@@ -477,8 +489,82 @@ def exhaustive(ctx):
                     s2["orig"].insert(k, None)
                 compare(ctx, wb, wb2, [f"blank_row:choices:{k}x{cnt}"], channel, tag="alias")
                 n += 1
+    n += directed(ctx)
     ctx.notes["exhaustive_alias_cases"] = n
     ctx.notes["exhaustive"] = True
+
+
+def ext_form():
+    f = base_form()
+    f["survey"] += [{"type": "select_one_external ecl", "name": "city", "label": "City", "choice_filter": "state=${t}"}]
+    f["external_choices"] = [{"list_name": "ecl", "name": "a", "label": "it's \"A\"", "state": "x"},
+                             {"list_name": "ecl", "name": "b", "label": "B", "state": "y"}]
+    return f
+
+
+def directed(ctx):
+    """Directed families: external choices (itemsets.csv), irrelevant workbook content, and one case per open finding."""
+    n = 0
+    mk = lambda f: spell_tx.init_orig(spell.wb_from_form(f))  # noqa: E731
+
+    def cmp(f1, f2, labels, channel="dict", w2=None):
+        nonlocal n
+        compare(ctx, mk(f1), w2 if w2 is not None else mk(f2), labels, channel, tag="alias")
+        n += 1
+
+    # --- external choices: smart quotes / column order / header spellings must not reach itemsets.csv
+    for channel in ("dict", "xlsx", "md"):
+        f2 = ext_form()
+        for r in f2["external_choices"]:
+            r["label"] = r["label"].replace("'", "’").replace('"', "”")
+        cmp(ext_form(), f2, ["smart_quotes:external_choices:label"], channel)
+        f2 = ext_form()
+        f2["external_choices"] = [dict(reversed(list(r.items()))) for r in f2["external_choices"]]
+        cmp(ext_form(), f2, ["col_perm:external_choices"], channel)
+    for alias in ("list name", "List_Name", " LIST_NAME "):
+        f2 = ext_form()
+        f2["external_choices"] = [{(alias if k == "list_name" else k): v for k, v in r.items()} for r in f2["external_choices"]]
+        cmp(ext_form(), f2, [f"hdr_alias:external_choices:list_name->{alias}"])          # F54
+    # --- irrelevant workbook content: every raw extra sheet, unrelated and underscore-prefixed, through xlsx
+    for k, raw in enumerate(spell_tx.RAW_SHEETS):
+        for name in ("notes", "_scratch"):
+            w2 = mk(base_form())
+            extra = {"name": name, "cols": ["a", "b"], "rows": [["1", "x"]], "orig": [2]}
+            if raw is not None:
+                extra["raw"] = copy.deepcopy(raw)
+            w2["sheets"].insert(k % 3, extra)
+            cmp(base_form(), None, [f"extra_sheet:{name}:raw{k}"], "xlsx", w2=w2)
+    # --- F16: markdown drops an interior blank row
+    f2 = base_form()
+    f1 = base_form()
+    f1["survey"].insert(1, {"type": "note", "label": "unnamed"})
+    w2 = mk(f1)
+    s2 = spell.sheet(w2, "survey")
+    s2["rows"].insert(1, [None] * len(s2["cols"]))
+    s2["orig"].insert(1, None)
+    cmp(f1, None, ["blank_row:survey:1x1"], "md", w2=w2)
+    # --- F51: type-table aliases are not canonicalised before the type-keyed branches
+    for a, b, col, val in (("geopoint", "gps", "parameters", "capture-accuracy=10"), ("geopoint", "location", "parameters", "capture-accuracy=10"),
+                           ("text", "string", "parameters", "rows=5"), ("dateTime", "datetime", "default", "1 - 2")):
+        f1, f2 = base_form(), base_form()
+        for f, t in ((f1, a), (f2, b)):
+            f["survey"][1]["type"] = t
+            f["survey"][1][col] = val
+        cmp(f1, f2, [f"type_alias:{a}->{b}"])
+    # --- F52: the `disabled` column is recognised in lower case only
+    f1, f2 = base_form(), base_form()
+    f1["survey"][1]["disabled"] = "yes"
+    f2["survey"][1]["Disabled"] = "yes"
+    cmp(f1, f2, ["hdr_case:survey:disabled"])
+    # --- F53: two spellings of one column: accepted or rejected depending on their order
+    f1, f2 = base_form(), base_form()
+    for f, order in ((f1, ("caption", "label")), (f2, ("label", "caption"))):
+        lab = f["survey"][1].pop("label")
+        for h in order:
+            f["survey"][1][h] = lab
+        f["survey_cols"] = ["type", "name", *order, "hint"]
+    cmp(f1, f2, ["col_perm:survey:caption|label"])
+    return n
 
 
 # --------------------------------------------------------------------------- explore / replay
@@ -508,7 +594,48 @@ def m_f16(f):
     return f.kind == "not-equivalent" and x.get("channel") == "md" and bool(x.get("f16"))
 
 
-MATCHERS = {"F16-md-blank-row-dropped": m_f16}
+TYPE_KEYED = {"geopoint", "gps", "location", "text", "string", "dateTime", "datetime"}
+
+
+def _survey_rows(f):
+    for sh in f.case.get("wb", {}).get("sheets", []):
+        if sh["name"].lower() == "survey":
+            return [dict(zip(sh["cols"], r)) for r in sh["rows"]]
+    return []
+
+
+def m_f51(f):
+    """type_alias between spellings of geopoint / text / dateTime on a row that has parameters or a default with ` - `"""
+    labs = [l for l in f.extra.get("labels", []) if l.startswith("type_alias:")]
+    if f.kind != "not-equivalent" or not labs:
+        return False
+    ok = False
+    for l in labs:
+        a, _, b = l[len("type_alias:"):].partition("->")
+        if a in TYPE_KEYED and b in TYPE_KEYED:
+            ok = ok or any((r.get("type") or "").strip() == a and (r.get("parameters") or " - " in (r.get("default") or "")) for r in _survey_rows(f))
+    return ok and f.extra.get("orig_class") == f.extra.get("new_class") == "ok"
+
+
+def m_f52(f):
+    return f.kind == "not-equivalent" and any(l.split(":")[0] in ("hdr_case", "hdr_space") and l.endswith(":disabled") for l in f.extra.get("labels", []))
+
+
+def m_f53(f):
+    x = f.extra
+    return (f.kind == "not-equivalent" and any(l.startswith("col_perm") for l in x.get("labels", []))
+            and {x.get("orig_class"), x.get("new_class")} == {"ok", "pyxform"}
+            and "Headers that are different names for the same column were found" in (x.get("orig_msg", "") + x.get("new_msg", "")))
+
+
+def m_f54(f):
+    x = f.extra
+    return (f.kind == "not-equivalent" and x.get("diff", "").startswith("/itemsets")
+            and any(l.split(":")[0] in ("hdr_alias", "hdr_case", "hdr_space") and l.split(":")[1].lower() == "external_choices" for l in x.get("labels", [])))
+
+
+MATCHERS = {"F16-md-blank-row-dropped": m_f16, "F51-type-alias-not-canonicalised": m_f51, "F52-disabled-header-case": m_f52,
+            "F53-duplicate-column-spellings-order": m_f53, "F54-itemsets-header-as-typed": m_f54}
 
 
 def main(argv):
